@@ -3,6 +3,11 @@ mod c03;
 mod c07;
 mod c15;
 mod c20;
+mod macroprops;
+#[path = "/repo/lexpr-macros/src/value.rs"]
+mod value;
+#[path = "/repo/lexpr-macros/src/parser.rs"]
+mod parser;
 mod dialect;
 mod indep;
 mod parseprops;
@@ -27,6 +32,11 @@ fn main() {
     let id = args[1].as_str();
     let tier = args[2].as_str();
     let seed: u64 = args[3].parse().unwrap_or(0);
+    if id == "C09" && tier == "macrogen" {
+        // harness C09 macrogen <seed> <outfile> <n>
+        std::fs::write(&args[4], macroprops::macrogen(seed, args[5].parse().unwrap())).unwrap();
+        return;
+    }
     let dir = PathBuf::from(&args[4]);
     std::fs::create_dir_all(&dir).ok();
     if id == "C03" && tier == "deepchild" {
@@ -49,6 +59,7 @@ fn main() {
         "C17" => parseprops::run_c17(tier, seed, &mut out),
         "C19" => parseprops::run_c19(tier, seed, &mut out),
         "C04" | "C14" | "C18" => serdeprops::run(id, tier, seed, &mut out),
+        "C09" => macroprops::run(tier, seed, &mut out),
         "C03" => c03::run(tier, seed, &mut out),
         "C07" => c07::run(tier, seed, &mut out),
         "C20" => c20::run(tier, seed, &mut out),
